@@ -564,11 +564,16 @@ func (x *Exec) evalIdent(env *specEnv, n *ast.Ident, cl *Clause) Val {
 	if v, ok := env.vars[n.Name]; ok {
 		return v
 	}
+	if v, ok := x.given[n.Name]; ok {
+		return v
+	}
 	// ghost
 	if env.inOld && env.old != nil {
 		if g, ok := env.old.ghost[n.Name]; ok {
 			if g.Sort == sInt {
 				g.Typ = mathInt
+			} else if g.Sort == sBV(64) && g.Typ == nil {
+				g.Typ = types.Typ[types.Uint64]
 			}
 			return g
 		}
@@ -576,6 +581,8 @@ func (x *Exec) evalIdent(env *specEnv, n *ast.Ident, cl *Clause) Val {
 	if g, ok := st.ghost[n.Name]; ok {
 		if g.Sort == sInt {
 			g.Typ = mathInt
+		} else if g.Sort == sBV(64) && g.Typ == nil {
+			g.Typ = types.Typ[types.Uint64]
 		}
 		return g
 	}
